@@ -164,6 +164,20 @@ def check_parser_time_dtype(db, chk, rule: str) -> None:
             chk.ob(rule, "_compress_df: a down-cast outside a column loop does not touch ts", "'ts'" not in arg and '"ts"' not in arg, where, found=ast.unparse(c)[:100], accepted="not the ts column")
             continue
         v = loop.target.id
+        # the blanket cast is for INTEGER columns only: with errors="coerce" a cast of an object column turns every non-numeric label into NaN
+        kinds = []
+        for g in guards:
+            for x in ast.walk(g):
+                if isinstance(x, ast.Compare) and isinstance(x.left, ast.Attribute) and x.left.attr == "kind" and len(x.comparators) == 1:
+                    kinds.append((type(x.ops[0]).__name__, H.str_const(x.comparators[0]) or [H.str_const(e) for e in getattr(x.comparators[0], "elts", [])]))
+        coerce = any(k.arg == "errors" and H.str_const(k.value) == "coerce" for k in c.keywords)
+        int_only = kinds == [("Eq", "i")] or kinds == [("Eq", "u")] or (len(kinds) == 1 and kinds[0][0] == "In" and set(kinds[0][1] or []) <= {"i", "u"})
+        chk.ob(rule, "_compress_df: a coercing numeric cast is applied to integer columns only", True if (int_only or not coerce) else (False if kinds else None), tp.loc(c),
+               found={"dtype guards": kinds, "errors": "coerce" if coerce else "raise"}, accepted="df[col].dtype.kind == 'i'",
+               why="pid / tid written as strings ('stream 7', 'Spans') would silently become NaN: process and thread no longer decode to the file's values",
+               key="hta.common.trace_parser:_compress_df|coerce-non-integer")
+        if not int_only:
+            continue
         over_all = "columns" in ast.unparse(loop.iter)
         listed = [H.str_const(e) for e in loop.iter.elts] if isinstance(loop.iter, (ast.List, ast.Tuple)) else None
         excl = False
